@@ -44,8 +44,13 @@ func aggregateReal(p *profile.Profile, agg *[6]bool) error {
 }
 
 // askTables asks the Lean driver for the figures of the SPEC or of the MODEL.
+// c04PathFn is the external file-name function handed to the Lean model as a table: what
+// graph.nodeInfo's File is for a Function.Filename. filepath.Clean, unless a report option rewrites
+// the names first (C05: source_path / trim_path, see c05_trimpath.go).
+var c04PathFn = filepath.Clean
+
 func askTables(c *Ctx, op string, q *gReq, kept []graph.NodeInfo, hasKept bool, p0 *profile.Profile, canon string) (*gTable, string) {
-	reply := c.Drv.Ask(op + " " + q.tokens(kept, hasKept, cleanTable(p0, filepath.Clean), canon))
+	reply := c.Drv.Ask(op + " " + q.tokens(kept, hasKept, cleanTable(p0, c04PathFn), canon))
 	t, err := parseLeanTables(reply)
 	if err != nil {
 		return nil, err.Error()
@@ -283,7 +288,7 @@ type leanFrames struct {
 }
 
 func askFrames(c *Ctx, q *gReq, p0 *profile.Profile, canon string) (*leanFrames, string) {
-	reply := c.Drv.Ask("graph.frames " + q.tokens(nil, false, cleanTable(p0, filepath.Clean), canon))
+	reply := c.Drv.Ask("graph.frames " + q.tokens(nil, false, cleanTable(p0, c04PathFn), canon))
 	if !strings.HasPrefix(reply, "ok ") {
 		return nil, "model reply: " + trunc(reply)
 	}
